@@ -30,9 +30,15 @@ def parseTag (s : String) : Option Nat :=
 
 def parseEv (line : String) : Option Ev :=
   match words line with
-  | ["ev", p, cur, pt, a, b, v] =>
+  | "ev" :: p :: cur :: pt :: a :: b :: v :: _ =>       -- an optional 8th word carries a raw address
     match p.toNat?, v.toInt? with
     | some p, some v => some { part := p, cur := cur.toNat?, pt := pt, a := a, b := b, v := v }
     | _, _ => none
+  | _ => none
+
+/-- the raw address field `@hex` of a ledger event -/
+def rawAddr (line : String) : Option String :=
+  match words line with
+  | "ev" :: _ :: _ :: _ :: _ :: _ :: _ :: r :: _ => if r.startsWith "@" then some r else none
   | _ => none
 end Driver
